@@ -3,17 +3,21 @@
 For every code object of generated programs and of pure-Python stdlib modules the real
 `CFG.from_bytecode` / `ControlDependenceGraph.compute` are run; the augmented CFG, networkx's
 post-dominator tree and the resulting CDG (+ `get_control_dependencies`, `is_control_dependent_on_root`)
-are exported.  The Lean driver (1) validates the tree against post-dominance pair by pair with
+are exported, together with the graph `CFG.from_bytecode` handed to `filter_dead_code_nodes`.  The Lean driver
+(0) runs the model of the repaired filter (loop + reachability pass, `filterDeadFull`) on that graph — the node
+set must be the real CFG's —, (1) validates the tree against post-dominance pair by pair with
 *checked certificates* (`decidePdom`, soundness proved), (2) checks `TreeOK` and `LabelConsistent`,
 (3) recomputes the CDG and the two queries; everything is diffed.
-Oracle (independent of Lean): brute-force post-dominance in Python → Ferrante's set; CFG shape;
+Oracle (independent of Lean): brute-force post-dominance in Python → Ferrante's set; CFG shape; every node
+reachable from ENTRY and nothing reachable removed by the filter; an exception during construction is a failure;
 `get_control_dependencies` = every (branch, outcome) reachable backwards over non-branch CDG edges of the
 *expected* (Ferrante) CDG; `is_control_dependent_on_root` = a root edge reachable the same way.
 
 Case kinds: `gen` (progen programs), `stdlib`, `skel` (control-flow skeletons around opaque one-line
 statements: single-block `while True` loops, generators, try/with/match inside branches and loops, …),
 `synth` (random block graphs handed to the real `_insert_dummy_nodes` / `filter_dead_code_nodes` /
-`ControlDependenceGraph.compute`: self loops, irreducible loops, try-like unlabelled forks, yield blocks),
+`ControlDependenceGraph.compute`: self loops, irreducible loops, try-like unlabelled forks, yield blocks,
+unreachable cycles / dead chains / loops behind dead handlers),
 `src` (corpus).
 """
 from __future__ import annotations
@@ -27,14 +31,35 @@ from vcommon import Failure, PropertyCheck, run_main
 ENTRY, EXIT, ROOT = 0, 1, 2
 
 
+def snapshot(graph):
+    """Nodes and edges of a program graph as plain objects (taken before the real filter mutates it)."""
+    return {"nodes": list(graph.graph.nodes), "edges": [(s, t) for s, t in graph.graph.edges]}
+
+
 def cfg_of_code(code):
-    """The real CFG construction for a code object."""
+    """The real CFG construction for a code object: (CFG, graph handed to `filter_dead_code_nodes`).
+
+    `CFG.from_bytecode` is called as is; the module-level `filter_dead_code_nodes` it ends with is wrapped
+    for the duration of the call so that its argument can be recorded.  When `from_bytecode` does not call it
+    the finished graph itself stands for the filter's input (the model then has to leave it unchanged)."""
     from bytecode import Bytecode
 
     from pynguin.instrumentation import controlflow as cf
     from pynguin.instrumentation import version
 
-    return cf.CFG.from_bytecode(version.add_for_loop_no_yield_nodes(Bytecode.from_code(code)))
+    seen = []
+    real = cf.filter_dead_code_nodes
+
+    def recording(graph, entry_node):
+        seen.append(snapshot(graph))
+        return real(graph, entry_node)
+
+    cf.filter_dead_code_nodes = recording
+    try:
+        cfg = cf.CFG.from_bytecode(version.add_for_loop_no_yield_nodes(Bytecode.from_code(code)))
+    finally:
+        cf.filter_dead_code_nodes = real
+    return cfg, (seen[-1] if seen else snapshot(cfg))
 
 
 def cfg_of_blocks(blocks):
@@ -59,26 +84,13 @@ def cfg_of_blocks(blocks):
              for i, b in enumerate(blocks) if b["succ"]}
     cf.CFG._create_graph(cfg, edges, dict(enumerate(nodes)))
     cf.CFG._insert_dummy_nodes(cfg)
-    return cf.filter_dead_code_nodes(cfg, cf.ArtificialNode.ENTRY)
+    raw = snapshot(cfg)
+    return cf.filter_dead_code_nodes(cfg, cf.ArtificialNode.ENTRY), raw
 
 
-def unreachable_cycle_in_block_graph(code):
-    """Does the raw block graph (before ENTRY/EXIT insertion) contain a cycle that is not reachable from
-    the first block?  (Independent re-implementation over the edges `_create_nodes_and_edges` reports.)"""
-    from bytecode import Bytecode, ControlFlowGraph
-
-    from pynguin.instrumentation import controlflow as cf
-
-    blocks = ControlFlowGraph.from_bytecode(Bytecode.from_code(code))
-    cf.CFG._split_try_begin_blocks(blocks)
-    edges, nodes = cf.CFG._create_nodes_and_edges(blocks)
-    adj = {i: [t for t, _ in edges.get(i, [])] for i in nodes}
-    live = reach(adj, cf.FIRST_BASIC_BLOCK_NODE_INDEX)
-    return any(n in reach(adj, t) for n in nodes if n not in live for t in adj[n])
-
-
-def export_graph(cfg):
-    """Run the real CDG construction on a CFG and export everything as plain data."""
+def export_graph(cfg, raw):
+    """Run the real CDG construction on a CFG and export everything as plain data (`raw`: the graph that
+    was handed to `filter_dead_code_nodes`, see `snapshot`)."""
     from pynguin.instrumentation import controlflow as cf
 
     aug = cf.ControlDependenceGraph._create_augmented_graph(cfg)
@@ -112,6 +124,7 @@ def export_graph(cfg):
         "entry": ENTRY, "exit": EXIT, "root": ROOT,
         "cdg": cdg_edges, "cdg_nodes": sorted(gnodes), "deps": sorted(deps), "rootDep": sorted(rootdep),
         "cfg_nodes": sorted(nid(n) for n in cfg.graph.nodes), "cfg_edges": cfg_edges,
+        "raw_nodes": [nid(n) for n in raw["nodes"]], "raw_edges": [[nid(s), nid(t)] for s, t in raw["edges"]],
     }
 
 
@@ -131,14 +144,32 @@ class Skel:
     statements, so that blocks are small and the CFG shape (not the data flow) is what varies.
     Programs are only compiled, never run, so loops may be infinite (`while True:` with a one-statement
     body is a basic block jumping to itself).  No statement is generated after one that cannot fall
-    through, so there is no dead code.  `block` returns (lines, may_fall_through, breaks_enclosing_loop)."""
+    through, so there is no dead code — unless `dead` is set: then statements (loops among them) may follow a
+    `return` / `raise` / `break` / `continue`, and `try` bodies that cannot raise (`pass`, `return None`) get
+    handlers with loops, so that the raw block graph has blocks — and cycles — the first block does not reach
+    (CPython removes most dead code itself, the `bytecode` library keeps what hangs on an exception table
+    entry).  `block` returns (lines, may_fall_through, breaks_enclosing_loop)."""
 
     MAX_DEPTH = 3
 
-    def __init__(self, rng, generator, is_async):
+    def __init__(self, rng, generator, is_async, dead=False):
         self.r = rng
         self.generator = generator
         self.is_async = is_async
+        self.dead = dead
+
+    def small_loop(self):
+        r = self.r
+        return r.choice([
+            ["while x == 4:", "    pass"],
+            ["while True:", "    o.m()"],
+            ["while 1:", "    x = o.g(x)", "    if x:", "        break"],
+            ["for k in it:", "    pass"],
+            ["for k in it:", "    if k:", "        break", "else:", "    o.m()"],
+            ["while x:", "    x = o.g(x)", "    if x is None:", "        continue", "    o.m()"],
+            ["while x:", "    while y:", "        y = o.g(y)", "    x = o.g(x)"],
+            ["while True:", "    match x:", "        case str():", "            o.m()"],
+        ])
 
     def cond(self):
         r = self.r
@@ -169,6 +200,8 @@ class Skel:
             out += ls
             brk = brk or b
             if not ft:
+                if self.dead and r.random() < 0.5:  # dead code behind a statement that does not fall through
+                    out += self.small_loop() if r.random() < 0.5 else self.stmt(depth, in_loop)[0]
                 return out, False, brk
         return out, True, brk
 
@@ -227,10 +260,17 @@ class Skel:
             return out, ft, False
         if k == "try":
             b, fb, kb = self.block(depth + 1, in_loop)
+            quiet = self.dead and r.random() < 0.6
+            if quiet:  # a body that cannot raise: its handlers are not connected to the first block
+                b = [r.choice(["pass", "return None", "return", "pass", "x = 1"])]
+                fb, kb = not b[0].startswith("return"), False
             out, fh_any, brk = ["try:"] + ind(b), False, kb
             for _ in range(r.choice([1, 1, 2])):
                 h, fh, kh = self.block(depth + 1, in_loop, n=r.choice([1, 1, 2]))
-                if r.random() < 0.3:
+                if quiet and r.random() < 0.7:  # a loop in (or, when it falls through, behind) the dead handler
+                    h, fh, kh = self.small_loop() + r.choice([[], [], ["o.m()"], ["return x"]]), True, False
+                    fh = h[-1] != "return x"
+                elif r.random() < 0.3:
                     h, fh, kh = ["pass"], True, False
                 head = r.choice(["except:", "except KeyError:", "except (KeyError, ValueError) as e:",
                                  "except Exception as e:"])
@@ -269,7 +309,7 @@ def skel_source(seed):
     rng = random.Random(seed)
     is_async = rng.random() < 0.12
     generator = not is_async and rng.random() < 0.4  # (`yield from` / `return x` are errors in async generators)
-    s = Skel(rng, generator, is_async)
+    s = Skel(rng, generator, is_async, dead=rng.random() < 0.35)
     body, _, _ = s.block(0, False, n=rng.choice([1, 1, 2, 3]))
     return "\n".join([("async def" if is_async else "def") + " f(o, it, x, y=None):"] + Skel.ind(body)) + "\n"
 
@@ -278,7 +318,10 @@ def synth_blocks(rng):
     """A random block graph in the shapes `_create_nodes_and_edges` produces: a block has no successor
     (return), one (fall through / jump), two labelled True/False (conditional jump) or two unlabelled
     (try-begin block: next block + handler); any block may contain a yield.  Successors are arbitrary
-    (self loops, irreducible loops, infinite loops), every block is reachable from block 0."""
+    (self loops, irreducible loops, infinite loops).  Half of the graphs consist of blocks reachable from
+    block 0 only; the other half keeps the blocks block 0 does not reach (dead chains feeding live blocks,
+    unreachable cycles, unreachable yield / return blocks) and often gets an *island* appended: a loop of
+    1-3 blocks nobody jumps to — the handler of a `try` whose body cannot raise — that leaves into live code."""
     n = rng.choice([1, 2, 3, 3, 4, 4, 5, 5, 6, 7, 8, 10, 12])
     raw = []
     for i in range(n):
@@ -294,6 +337,23 @@ def synth_blocks(rng):
                 b = (a + 1) % n
             succ = [[a, True], [b, False]] if k == "br" else [[a, None], [b, None]]
         raw.append({"succ": succ, "y": rng.random() < 0.15})
+    if rng.random() < 0.5:
+        if rng.random() < 0.6:  # island: head (-> body ...) -> head, one block leaves the loop (or none does)
+            k = rng.choice([1, 1, 2, 3])
+            base = len(raw)
+            for j in range(k):
+                nxt = base + (j + 1) % k
+                out = rng.randrange(base + k) if rng.random() < 0.8 else None
+                if out is None or out == nxt:
+                    succ = [[nxt, None]]
+                elif rng.random() < 0.7:
+                    succ = [[nxt, True], [out, False]] if rng.random() < 0.5 else [[out, True], [nxt, False]]
+                else:
+                    succ = [[nxt, None], [out, None]]
+                raw.append({"succ": succ, "y": rng.random() < 0.1})
+            if rng.random() < 0.3:  # … entered from a block that is dead itself
+                raw.append({"succ": [[base, None]], "y": False})
+        return raw
     seen, todo = {0}, [0]
     while todo:
         for t, _ in raw[todo.pop()]["succ"]:
@@ -307,22 +367,21 @@ def synth_blocks(rng):
 class C06(PropertyCheck):
     prop_id = "C06"
     prop_modules = ["PynguinModel.Props.C06"]
-    extra_modules = ["PynguinModel.Model.Cdg", "PynguinModel.Model.CdgQueries"]
+    extra_modules = ["PynguinModel.Model.Cdg", "PynguinModel.Model.CdgQueries", "PynguinModel.Model.CdgFilter"]
     driver = "Driver/C06.lean"
     n_quick = 700
     n_thorough = 9000
     n_search = 3000
     rule = ("code objects of random generated programs (progen), of control-flow skeletons (one-block loops, generators, "
-            "try/with/match in branches and loops) and of pure-Python stdlib modules, plus synthetic block graphs handed to "
-            "the real _insert_dummy_nodes / filter_dead_code_nodes / compute; "
+            "try/with/match in branches and loops, dead code and loops in handlers of try bodies that cannot raise) and of "
+            "pure-Python stdlib modules, plus synthetic block graphs (half of them with unreachable blocks / cycles) handed "
+            "to the real _insert_dummy_nodes / filter_dead_code_nodes / compute; "
             "non-trivial = distinct CFG with at least one labelled (branch) edge")
     assumptions = ["networkx immediate_dominators / lowest_common_ancestor are parameters: validated per graph "
                    "(tree = strict post-dominance, by checked certificates, for graphs up to CERT_MAX nodes), not proved",
                    "bytecode's block splitting and CFG edge creation are not modelled (C03)",
                    "a branch block with an artificial EXIT edge can depend on itself under both outcomes; the DiGraph "
-                   "stores one edge per pair, either wanted label is accepted there (guard:double-label)",
-                   "code objects for which the unchanged CFG construction raises KeyError (loop in an except handler that "
-                   "the block graph does not connect to the first block) are skipped after an independent check"]
+                   "stores one edge per pair, either wanted label is accepted there (guard:double-label)"]
     CERT_MAX = 45
 
     def __init__(self, tier, seed):
@@ -372,19 +431,16 @@ class C06(PropertyCheck):
             return self._graphs[key]
         self.count("kind:" + case["kind"])
         try:
-            cfg = cfg_of_blocks(case["blocks"]) if case["kind"] == "synth" else cfg_of_code(self._code(case))
+            cfg, raw = cfg_of_blocks(case["blocks"]) if case["kind"] == "synth" else cfg_of_code(self._code(case))
         except Exception as e:  # noqa: BLE001
-            # Known crash of the unchanged tree (observation, see design note): `_insert_dummy_nodes` looks up the
-            # entry distance of a loop that the block graph does not connect to the first block (a loop inside
-            # an `except` handler of `try: return`).  Only that situation, established independently, is skipped.
-            known = (isinstance(e, KeyError) and case["kind"] != "synth"
-                     and unreachable_cycle_in_block_graph(self._code(case)))
-            self.count("skipped:unreachable-loop-keyerror" if known else "cfg-construction-raised")
-            g = {"skip": True} if known else {"err": type(e).__name__, "msg": str(e)[:200]}
+            # every code object has a CFG: any exception here (the KeyError for loops the first block does not
+            # reach included, repaired in /repo 98ae781) is a failure of the property, reported with the input
+            self.count("cfg-construction-raised")
+            g = {"err": type(e).__name__, "msg": str(e)[:200]}
             self._graphs[key] = g
             return g
         try:
-            g = export_graph(cfg)
+            g = export_graph(cfg, raw)
         except Exception as e:  # noqa: BLE001
             self.count("cdg-construction-raised")
             g = {"err": type(e).__name__, "msg": "CDG: " + str(e)[:200]}
@@ -394,24 +450,35 @@ class C06(PropertyCheck):
         self.count(f"nodes:{min(len(g['nodes']) // 10 * 10, 60)}+")
         if any(s == t for s, t, _ in g["cfg_edges"]):
             self.count("shape:cfg-self-loop")
+        dead = set(g["raw_nodes"]) - set(g["cfg_nodes"])
+        if dead:
+            self.count("shape:dead-nodes-filtered")
+            radj = {}
+            for a, b in g["raw_edges"]:
+                radj.setdefault(a, []).append(b)
+            if any(n in reach(radj, t) for n in dead for t in radj.get(n, ())):
+                self.count("shape:unreachable-cycle-filtered")
         if any(len({d[0] for d in ds}) < len(ds) for _, ds in g["deps"]):
             self.count("shape:depends-on-both-outcomes")
         return g
 
     def model_line(self, case):
         g = self.impl(case)
-        if "skip" in g or "err" in g:
+        if "err" in g:
             return None
         certs = len(g["nodes"]) <= self.CERT_MAX
         self.count("certs:" + ("yes" if certs else "skipped-large"))
         return vcommon.jdump({k: g[k] for k in ("nodes", "blocks", "edges", "parent", "entry", "exit", "root")}
-                             | {"certs": certs})
+                             | {"certs": certs, "rawNodes": g["raw_nodes"], "rawEdges": g["raw_edges"]})
 
     def compare(self, case, io, mo):
         if "bad-op" in mo:
             return False
         norm = lambda deps: sorted([n, sorted((list(x) for x in d), key=str)] for n, d in deps)  # noqa: E731
+        if mo.get("live") is not None and mo.get("loopOnly") != len(mo["live"]):
+            self.count("model:reachability-pass-removed-nodes")  # the legacy loop alone would have kept them
         ok = (mo["cdg"] == io["cdg"] and mo["treeOK"] and mo["pdomBad"] == []
+              and mo.get("live") == io["cfg_nodes"]  # filterDeadFull (Lean) = the real filter_dead_code_nodes
               and norm(mo["deps"]) == norm(io["deps"])
               and sorted(mo["rootDep"]) == io["rootDep"])
         self.extra_coverage["pdom_pairs_certified"] = self.extra_coverage.get("pdom_pairs_certified", 0) + mo.get("pdomPairs", 0)
@@ -425,8 +492,6 @@ class C06(PropertyCheck):
     def oracle(self, case, g):
         fs = []
         sig = lambda c: {"class": c}  # noqa: E731
-        if "skip" in g:
-            return fs
         if "err" in g:
             return [Failure(sig("cfg-construction-raises"),
                             f"no CFG/CDG for this code object: {g['err']}: {g['msg']}")]
@@ -444,6 +509,19 @@ class C06(PropertyCheck):
         if reach(adj, ENTRY) != set(g["cfg_nodes"]):
             fs.append(Failure(sig("unreachable-block"), "a CFG node is not reachable from ENTRY",
                               detail=sorted(set(g["cfg_nodes"]) - reach(adj, ENTRY))))
+        # the filter removes dead code only: what ENTRY reaches in the graph handed to filter_dead_code_nodes
+        # is still there, with its edges (the CFG of the code object has every block the entry reaches)
+        radj = {}
+        for a, b in g["raw_edges"]:
+            radj.setdefault(a, []).append(b)
+        rlive = reach(radj, ENTRY) if ENTRY in g["raw_nodes"] else set()
+        if rlive - set(g["cfg_nodes"]):
+            fs.append(Failure(sig("reachable-block-removed"), "a block the entry reaches is missing in the CFG",
+                              detail=sorted(rlive - set(g["cfg_nodes"]))))
+        lost = sorted([a, b] for a, b in g["raw_edges"] if a in rlive and b in rlive
+                      and not any(s == a and t == b for s, t, _ in g["cfg_edges"]))
+        if lost:
+            fs.append(Failure(sig("cfg-edge-lost"), "an edge between reachable blocks is missing in the CFG", detail=lost))
         # Ferrante on the augmented graph with brute-force post-dominance
         aadj = {}
         for e in g["edges"]:
